@@ -215,7 +215,9 @@ func (f *function) newThread() *starlark.Thread {
 	thread := &starlark.Thread{
 		Name: f.label.String(),
 		Print: func(_ *starlark.Thread, msg string) {
-			f.proj.events.Print(f.label, msg)
+			// print() shares the target's line buffer with the output of the processes the target runs, so that
+			// it keeps its place behind a line that is still unterminated.
+			fmt.Fprintln(f.out, msg)
 		},
 		Load: func(_ *starlark.Thread, module string) (starlark.StringDict, error) {
 			return nil, errors.New("targets cannot load modules")
